@@ -333,6 +333,12 @@ def scenario_params(tier):
             [("svc", "pool"), ("svc", "decosvc", "pool")]):
         out.append({"format": fmt, "shape": shape, "flavour": flavour, "forms": ("tag", "type"),
                     "end": "fail", "fail": (0, how)})
+        if fmt == "yaml" and (tier != "quick" or shape == ("svc", "pool")):
+            # the same with a logging section (which re-configures logging before the
+            # failure has to be reported)
+            out.append({"format": fmt, "shape": shape, "flavour": flavour,
+                        "forms": ("tag", "type"), "end": "fail", "fail": (0, how),
+                        "logging": True})
     # configuration errors
     for error in ERRORS:
         fmt = "py" if error == "python-raises" else "yaml"
@@ -340,6 +346,10 @@ def scenario_params(tier):
         for flavour in (["trio"] if tier == "quick" else list(SERVICE_CLASS)):
             out.append({"format": fmt, "shape": shape, "flavour": flavour,
                         "forms": ("tag",), "end": "error", "error": error})
+            if fmt == "yaml" and error not in ("unknown-extension", "yaml-syntax"):
+                out.append({"format": fmt, "shape": shape, "flavour": flavour,
+                            "forms": ("tag",), "end": "error", "error": error,
+                            "logging": True})
             if error in ("constructor-typeerror", "unknown-argument"):
                 out.append({"format": fmt, "shape": shape, "flavour": flavour,
                             "forms": ("type",), "end": "error", "error": error})
